@@ -45,19 +45,26 @@ func cloneRequest(req *http.Request) *http.Request {
 // withConditionalHeaders sets the conditional headers on the request based on the
 // stored response headers as specified in RFC 9111 §4.3.1.
 func withConditionalHeaders(req *http.Request, storedHdr http.Header) *http.Request {
-	var req2 *http.Request
-	if etag := storedHdr.Get("ETag"); etag != "" {
-		req2 = cloneRequest(req)
+	etag, lastModified := storedHdr.Get("ETag"), storedHdr.Get("Last-Modified")
+	_, hasINM := req.Header["If-None-Match"]
+	_, hasIMS := req.Header["If-Modified-Since"]
+	if etag == "" && lastModified == "" && !hasINM && !hasIMS {
+		return req
+	}
+	// The validation is about the stored response: it carries the stored validators and
+	// no others. A precondition of the client's own that the cache cannot replace (an
+	// If-None-Match when no ETag is stored, ...) is not forwarded - a 304 it triggered
+	// would say nothing about the stored response, yet would be taken as validating it.
+	req2 := cloneRequest(req)
+	if etag != "" {
 		req2.Header.Set("If-None-Match", etag)
+	} else {
+		req2.Header.Del("If-None-Match")
 	}
-	if lastModified := storedHdr.Get("Last-Modified"); lastModified != "" {
-		if req2 == nil {
-			req2 = cloneRequest(req)
-		}
+	if lastModified != "" {
 		req2.Header.Set("If-Modified-Since", lastModified)
+	} else {
+		req2.Header.Del("If-Modified-Since")
 	}
-	if req2 != nil {
-		req = req2
-	}
-	return req
+	return req2
 }
